@@ -793,3 +793,40 @@ Theorem C11_nanro_solve_reports : forall oracle, oracle_sound_on oracle -> oracl
     (rules_nanro (List.cons (List.cons (Z.of_nat h) (List.cons (Z.of_nat w) nil)) (List.cons room (List.cons num nil)))).
 Proof. exact nanro_solve_reports. Qed.
 Print Assumptions C11_nanro_solve_reports.
+
+(* Tier 1, nurimaze (a module not in the original 26), every board shape, every layout of bold lines and symbols, every
+   S / G of which at least one is a cell of the board: composition with property C04's acyclic form
+   (NurimazeCompose: active_vertices_connected(..., acyclic=True), path variables declared after the helper); the path
+   grid is existential - in every model it IS the route of the rules, i.e. the cells that separate S from G in the
+   maze (NurimazeTree.nmt_route_sound, by the handshake lemma on the components of the path cells), and the route
+   has the posted degrees (nmt_end_degree / nmt_mid_degree); with S = G or one of them off the board neither side
+   has a solution (nmt_one_end); tiles = connected components of the cells joined across missing bold lines *)
+From Cspuz Require Import Puzzle.Rules_nurimaze Puzzle.Nurimaze Puzzle.NurimazeProofs.
+Theorem C11_nurimaze_exact : forall h w wv wh mark sy sx gy gx st ans,
+  on_board h w sy sx = true \/ on_board h w gy gx = true ->
+  solve_nurimaze_model (List.cons (List.cons (Z.of_nat h) (List.cons (Z.of_nat w) nil)) (List.cons wv (List.cons wh
+     (List.cons mark (List.cons (List.cons sy (List.cons sx (List.cons gy (List.cons gx nil)))) nil))))) = Ok st ->
+  ((exists en, model_of gsem_avc en st /\ reads st en (seq 0 (h * w)) = ans)
+   <-> rules_nurimaze (List.cons (List.cons (Z.of_nat h) (List.cons (Z.of_nat w) nil)) (List.cons wv (List.cons wh
+     (List.cons mark (List.cons (List.cons sy (List.cons sx (List.cons gy (List.cons gx nil)))) nil))))) ans = true).
+Proof. exact nurimaze_exact_gen. Qed.
+Print Assumptions C11_nurimaze_exact.
+
+Theorem C11_nurimaze_model_defined : forall (h w : nat) (wv wh mark : list Z) sy sx gy gx,
+  (1 <= h * w)%nat -> (h * (w - 1) <= length wv)%nat -> ((h - 1) * w <= length wh)%nat -> (h * w <= length mark)%nat ->
+  exists st, solve_nurimaze_model (List.cons (List.cons (Z.of_nat h) (List.cons (Z.of_nat w) nil)) (List.cons wv (List.cons wh
+     (List.cons mark (List.cons (List.cons sy (List.cons sx (List.cons gy (List.cons gx nil)))) nil))))) = Ok st.
+Proof. exact nurimaze_model_defined. Qed.
+Print Assumptions C11_nurimaze_model_defined.
+
+From Cspuz Require Import Puzzle.NurimazeWf.
+Theorem C11_nurimaze_solve_reports : forall oracle, oracle_sound_on oracle -> oracle_complete_on oracle ->
+  forall h w wv wh mark sy sx gy gx st,
+  on_board h w sy sx = true \/ on_board h w gy gx = true ->
+  solve_nurimaze_model (List.cons (List.cons (Z.of_nat h) (List.cons (Z.of_nat w) nil)) (List.cons wv (List.cons wh
+     (List.cons mark (List.cons (List.cons sy (List.cons sx (List.cons gy (List.cons gx nil)))) nil))))) = Ok st ->
+  solve_reports oracle st (seq 0 (h * w))
+    (rules_nurimaze (List.cons (List.cons (Z.of_nat h) (List.cons (Z.of_nat w) nil)) (List.cons wv (List.cons wh
+     (List.cons mark (List.cons (List.cons sy (List.cons sx (List.cons gy (List.cons gx nil)))) nil)))))).
+Proof. exact nurimaze_solve_reports. Qed.
+Print Assumptions C11_nurimaze_solve_reports.
